@@ -221,6 +221,7 @@ def stepBackend (st : SuiteState) (toks : List String) : SuiteState × String :=
     | .ok res => (st, s!"stream {streamStr res}")
     | .error e => (st, s!"stream err {errStr e}")
     | .panic => (st, "stream PANIC")
+  | "echo" :: _ => (st, " ".intercalate toks)
   | ["rev"] => (st, s!"rev {st.b.committed}")
   | ["setrev", r] =>
     ({ st with b := { st.b with committed := atou r, dealt := max st.b.dealt (atou r) } }, "setrev ok")
